@@ -85,7 +85,7 @@ func runJpgo(bin string, args []string, stdin []byte, pieces int) jpRun {
 	return r
 }
 
-var c19BadExprs = []string{"a.", "a[", "a b", "[?", "a ||", "{a:", "f(a b)", "&a", "a[0:1:2:3]", "@(x)", "#", "a#", "'abc", "`{`", "\"\\x\"", "=", "a = b", "", " ", "é", "[0", "a..b", ")", "a)", "[a", "*.[", "a[99999999999999999999]"}
+var c19BadExprs = []string{"`\"a\tb\"`", "`\"line\nbreak\"`", "\"a\tb\"", "a.", "a[", "a b", "[?", "a ||", "{a:", "f(a b)", "&a", "a[0:1:2:3]", "@(x)", "#", "a#", "'abc", "`{`", "\"\\x\"", "=", "a = b", "", " ", "é", "[0", "a..b", ")", "a)", "[a", "*.[", "a[99999999999999999999]"}
 
 var c19Inputs = []struct {
 	name  string
@@ -112,6 +112,8 @@ var c19Inputs = []struct {
 	{"invalid utf-8 inside a string", "{\"a\": \"x\xffy\"}", true},
 	{"json-like text inside strings", `{"a": "epoch 3, loss: NaN, lr 0.1", "s": "[-Infinity, 0)", "max:Infinity": 1, "arr": ["x, NaN", ":NaN", "[NaN]", ",Infinity", "// not a comment", "/* nor this */", "{'single': 1,}", "0x10", "01", "+1", ".5", "1.", "\\u0000"], "t": ": null, \"k\": [true]", "n": 1, "objs": [{"n": 1, "s": "NaN"}, {"n": 2, "s": "-Infinity"}]}`, true},
 	{"numbers with 16 and 17 significant digits", `{"a": [0.1, 0.2], "arr": [1, 2, 2], "n": 3.141592653589793, "s": 1.0000000000000002, "t": 0.30000000000000004, "objs": [{"n": 0.1, "s": "x"}, {"n": 0.7, "s": "y"}, {"n": 1e-7, "s": "z"}], "b": 2.220446049250313e-16, "c": 123456789.12345679}`, true},
+	{"nested 45 deep", strings.Repeat(`{"a":[`, 45) + `1` + strings.Repeat(`]}`, 45), true},
+	{"a list nested 60 deep", strings.Repeat(`[`, 60) + `"x"` + strings.Repeat(`]`, 60), true},
 	{"string document holding a JSON array", `"[]"`, true},
 	{"string document holding a JSON object", `"{\"foo\":{\"bar\":1},\"a\":[1,2]}"`, true},
 	{"string document holding a JSON number", `"123"`, true},
@@ -220,7 +222,7 @@ func c19(r *mon.Run) {
 	fixedGood := []string{"a.b[2].c", "arr", "sort(arr)", "objs[*].n", "sort_by(objs, &n)[0].s", "@", "*", "keys(@)", "length(@)", "[0]", "a.b[?@ > `1`]", "to_string(@)", "s", "n", "t", "z", "{x: n, y: s}", "[n, s, `null`]",
 		"'<raw>&'", "`{\"k\": [1, 2]}`", "a.b[::-1]", "not_null(z, s)", "type(n)", "max_by(objs, &n)", "join(', ', objs[*].s)", "a || b", "!z", "n < `0`", "\"é\"", "a.\"b\"[0]", "sum(arr)", "avg(arr)", "arr[1:]", "merge(@, {x: `1`})", "keys(@)[0]", "sort(keys(@))", "'50%'", "'%d'", "{p: '%s', q: s}",
 		"to_string(o)", "to_string(arr)", "to_string(@)", "'\\u003e'", "'\\u0026amp; \\u003c'", "keys(o)", "to_string(to_string(@))", "join('', arr)", "to_string(objs[*].s)", "o", "t", "[a, s, t]", "to_string(t)", "`\"\\\\u003c\"`", "to_string(`\"<&>\"`)", "to_string(['<', '>', '&'])",
-		"sum(a)", "avg(arr)", "avg(objs[*].n)", "sum(objs[*].n)", "[n, s, t, b, c]", "max(a)", "a[0]", "sum(a) == t", "objs[?n > `0.5`].n | [0]", "type(@)", "length(@)", "reverse(@)", "starts_with(@, '[')", "foo.bar", "sort(@)", "join(',', @)", "[0]", "@ == '[]'", "\"max:Infinity\"", "contains(a, 'NaN')", "arr[?contains(@, 'NaN')]", "objs[?s == 'NaN'].n", "length(s)", "keys(@)", "arr[0]", "ends_with(s, ', 0)')"}
+		"join('\t', arr[*].to_string(@))", "contains(s, '\n')", "'a\tb\nc\rd'", "`\"tab\\there\"`", "[`1`,\n\t`2`]\r\n", "{k:\n'v\tw'}", "\"a\" ||\n 'multi\nline'", "sum(a)", "avg(arr)", "avg(objs[*].n)", "sum(objs[*].n)", "[n, s, t, b, c]", "max(a)", "a[0]", "sum(a) == t", "objs[?n > `0.5`].n | [0]", "[[[[[[[[[[[[[[[[[[[[[[[[[[[[[[[[[[[[[[[[@]]]]]]]]]]]]]]]]]]]]]]]]]]]]]]]]]]]]]]]]", "{a:{a:{a:{a:{a:{a:{a:{a:{a:{a:{a:{a:{a:{a:{a:{a:{a:{a:{a:{a:{a:{a:{a:{a:{a:{a:{a:{a:{a:{a:{a:{a:{a:{a:{a:{a:@}}}}}}}}}}}}}}}}}}}}}}}}}}}}}}}}}}}}", "a", "a.a", "[0]", "type(@)", "length(@)", "reverse(@)", "starts_with(@, '[')", "foo.bar", "sort(@)", "join(',', @)", "[0]", "@ == '[]'", "\"max:Infinity\"", "contains(a, 'NaN')", "arr[?contains(@, 'NaN')]", "objs[?s == 'NaN'].n", "length(s)", "keys(@)", "arr[0]", "ends_with(s, ', 0)')"}
 	evalErr := []string{"abs('x')", "abs()", "nosuchfn(@)", "arr[::0]", "sort_by(objs, &@)", "length(n)", "[abs(s), n]", "objs[*].abs(s)", "merge(@, `1`)", "to_string(&a)", "sum(a)", "max(`[1, \"a\"]`)"}
 	n := tierPick(r, 4000, 40000)
 	w := mon.Workload{Name: "invocations", N: n, Batch: 50,
@@ -252,7 +254,7 @@ func c19(r *mon.Run) {
 			}
 			ii := rng.Intn(len(c19Inputs))
 			if i%3 == 0 {
-				ii = rng.Intn(23) // favour valid input
+				ii = rng.Intn(25) // favour valid input
 			}
 			in := c19Inputs[ii]
 			channel := []string{"stdin", "file", "missing file", "file through a symbolic link", "/dev/stdin as the file"}[[]int{0, 0, 1, 1, 1, 2, 3, 3, 4}[rng.Intn(9)]]
@@ -302,8 +304,18 @@ func c19(r *mon.Run) {
 			}
 			run := runJpgo(bin, args, stdin, pieces)
 			desc := fmt.Sprintf("jpgo %q  input(%s via %s, delivered in %d piece(s))=%q", args, in.name, channel, pieces, brief(in.data))
-			if run.startErr != nil || run.timedOut {
-				r.Inconclusive(fmt.Sprintf("invocation %d could not be judged (start error %v, timed out %v)", i, run.startErr, run.timedOut))
+			if run.timedOut {
+				// 20 s without an exit on inputs of this size: try once more before calling it (a loaded machine may be slow,
+				// a program that does not terminate stays that way)
+				run = runJpgo(bin, args, stdin, pieces)
+				if run.timedOut {
+					r.Violate(&mon.Violation{Workload: "invocations", Index: i, API: "jpgo", Expr: expr, DocDesc: desc, Expected: "jpgo prints its answer and exits", Observed: "no exit within 20 s, twice", Class: "jpgo does not terminate",
+						Extra: map[string]interface{}{"args": args}})
+					return
+				}
+			}
+			if run.startErr != nil {
+				r.Inconclusive(fmt.Sprintf("invocation %d could not be judged (start error %v)", i, run.startErr))
 				return
 			}
 			viol := func(class, exp, obs string) {
